@@ -2,6 +2,8 @@ def plan(tier):
     q = tier == "quick"
     mc = [{"module": "HmmMC", "cfg": "HmmMC.cfg" if q else "HmmMC_thorough.cfg", "timeout": 2400},
           {"module": "HmmExpMC", "cfg": "HmmExpMC.cfg" if q else "HmmExpMC_thorough.cfg", "timeout": 2400},
+          # lemma run: closed forms of the decoupled-chains family = general definition
+          {"module": "HmmExpMC", "cfg": "HmmExpMC_dec.cfg" if q else "HmmExpMC_dec_thorough.cfg", "timeout": 2400},
           # lemma run: closed form of the cycle family = general definition (s = 3, 4)
           {"module": "HmmExpMC", "cfg": "HmmExpMC_cyc.cfg" if q else "HmmExpMC_cyc_thorough.cfg", "timeout": 2400}]
     if not q:
@@ -15,7 +17,8 @@ def plan(tier):
                                  "exp_optimum_above_500", "exp_optimum_below_500", "exp_straddle_500",
                                  "exp_zero_entries", "exp_ties",
                                  "logsum_spread_in_fastexp_window", "logsum_spread_beyond_window",
-                                 "more_than_256_states"],
+                                 "more_than_256_states", "logsum_spread_709_78_to_710_nats",
+                                 "decoupled_takeover_beyond_500_nats", "decoupled_takeover_below_500_nats"],
         "rule": "spec->impl: the S=2,M=2,Den=2 model family of the MC run x all observation sequences T<=3 replayed "
                 "into the real code (quick: 1/8 of it); impl->spec: one run = one model object (plain / opt_end without / opt_end with end distribution; three "
                 "constructors) used for 2-5 observation sequences, each decoded by viterbi, forward and backward",
@@ -27,7 +30,10 @@ def plan(tier):
                            "S^T <= 4096 (quick) / 16384 (thorough); power-of-two class: exponents 0..300 or zero, "
                            "S<=4, T<=6, S^T <= 256, joint log-probabilities from 0 down to about -2700 nats; "
                            "closed-form cycle family with S in {257, 300, 1000}, T<=20 (only parameters are recorded; "
-                           "unique optimum known in closed form, lemma model-checked for s = 3, 4)"},
+                           "unique optimum known in closed form, lemma model-checked for s = 3, 4); closed-form "
+                           "decoupled-chains family (2-3 chains, observations a^n b / a^n with n up to 2000, column "
+                           "dynamic range 400 .. 2000 bits, the dominant chain dying at the end; lemma model-checked "
+                           "for T <= 3 / 4)"},
         "assumptions": ["harness projection (the only arithmetic it does): numerator k -> f64 k/den on input; "
                         "log-probability lp -> round(exp(lp)*den^(2T+1)) on output, with flags nan/posinf/neginf "
                         "(exact for scales <= 2e9)",
